@@ -2,10 +2,10 @@ SPECIFICATION Spec
 CONSTANTS
   Conn <- C3
   MaxLen = 2
-  MaxIll = 1
-  MaxRot = 2
-  Kinds <- KSmall
-  Cuts <- CutsAll
+  MaxIll = 0
+  MaxRot = 1
+  Kinds <- KTiny
+  Cuts <- CutsNone
   Ends <- EndsHalf
   NCk = 8
   Fault = "none"
